@@ -99,8 +99,8 @@ NOT_CODES = {"xx", "zz", "english", "e n", "e", "123", "en-", "EN ", "eng", "fra
 
 
 def similar_sheets(key, sheet_names):
-    if any(k.lower() == key for k in sheet_names):
-        return ()       # sheet names are case-insensitive: the sheet is there (perhaps without rows), nothing is missing
+    if any(k.strip().lower() == key for k in sheet_names):
+        return ()       # sheet names are case-insensitive and read without the white space around them: the sheet is there, nothing is missing
     return tuple(sorted(k for k in sheet_names if levenshtein(k.lower(), key) <= 2 and k.lower() not in SUPPORTED and not k.startswith("_")))
 
 
